@@ -18,7 +18,8 @@ def scope_keys(sc):
 def t_dict(T):
     ty = T["type"]
     if ty == "fmap":
-        d = {"type": "field_name_mapping", "mapping": {(uncps(f) if f else None): ([uncps(t) for t in to] if len(to) != 1 else uncps(to[0])) for f, to in T["m"]}}
+        # (flag: write a single target as a one-element list)
+        d = {"type": "field_name_mapping", "mapping": {(uncps(f) if f else None): ([uncps(t) for t in to] if len(to) != 1 or T["flag"] else uncps(to[0])) for f, to in T["m"]}}
     elif ty == "fprefix":
         d = {"type": "field_name_prefix", "prefix": uncps(T["s1"])}
     elif ty == "fsuffix":
@@ -37,6 +38,8 @@ def t_dict(T):
         d = {"type": "case", "method": "upper" if T["flag"] else "lower"}
     elif ty == "setvalue":
         d = {"type": "set_value", "value": uncps(T["s2"])}
+    elif ty == "regex":
+        d = {"type": "regex", "method": uncps(T["s1"])}
     elif ty == "hashes":
         d = {"type": "hashes_fields", "valid_hash_algos": [uncps(a) for a, _ in T["m"]], "field_prefix": uncps(T["s1"]), "drop_algo_prefix": bool(T["flag"])}
     elif ty == "nest":
